@@ -93,7 +93,14 @@ class QCircuitEnhanced(QCircuit):
 
     def add_ancilla(self, name=None, is_free=True):
         """Add an ancilla qubit"""
-        i = self.add_qubit(name if name else f"anc_{len(self.ancilla_lst)}")
+        if not name:
+            # A name of its own: neither one of an argument nor of another ancilla
+            n = len(self.ancilla_lst)
+            while f"anc_{n}" in self.qubit_map:
+                n += 1
+            name = f"anc_{n}"
+
+        i = self.add_qubit(name)
         self.ancilla_lst.add(i)
         if is_free:
             self.free_ancilla_lst.add(i)
